@@ -194,24 +194,30 @@ class Ctx:
         cdir = os.environ.get("VERIF_TLC_CACHE")
         ckey = None
         if cdir:
+            # Inputs: every module, the configuration, and the data files it names as inputs (TraceFile:
+            # traces recorded from the library under test).  Outputs: the files it names otherwise
+            # (OutFile, BaseFile, VerdictFile).  Other files in the directory may belong to TLC runs
+            # that are going on side by side and are ignored.
             hh = hashlib.sha256()
-            # everything TLC can read: the modules and every data file already present (recorded traces
-            # of the library under test are inputs of the trace specifications)
+            cfgtext = open(os.path.join(d, cfgname)).read()
+            named = re.findall(r'(\w+File)\s*=\s*"([^"]+)"', cfgtext)
+            inputs = sorted(v for k, v in named if k.startswith("Trace"))
+            outputs = sorted(set(v for k, v in named if not k.startswith("Trace")))
             for fn in sorted(os.listdir(d)):
-                fp = os.path.join(d, fn)
-                if os.path.isfile(fp) and not fn.endswith(".cfg"):
+                if fn.endswith(".tla"):
                     hh.update(fn.encode())
+                    hh.update(open(os.path.join(d, fn), "rb").read())
+            for fn in inputs:
+                fp = os.path.join(d, fn)
+                hh.update(fn.encode())
+                if os.path.isfile(fp):
                     with open(fp, "rb") as fh:
                         for chunk in iter(lambda: fh.read(1 << 20), b""):
                             hh.update(chunk)
-            hh.update(open(os.path.join(d, cfgname), "rb").read())
+            hh.update(cfgtext.encode())
             hh.update(repr([module, workers, simulate, depth, self.seed if simulate is not None else 0, list(extra), coverage]).encode())
             ckey = os.path.join(cdir, hh.hexdigest()[:24])
         before = {}
-        if ckey:
-            for fn in os.listdir(d):
-                fp = os.path.join(d, fn)
-                before[fn] = os.path.getmtime(fp) if os.path.isfile(fp) else -1
         if ckey and os.path.exists(os.path.join(ckey, "stdout.txt")):
             out_text = open(os.path.join(ckey, "stdout.txt")).read()
             rc = int(open(os.path.join(ckey, "rc.txt")).read())
@@ -232,14 +238,11 @@ class Ctx:
             if ckey and p.returncode != 124:
                 tmpk = ckey + ".tmp%d" % os.getpid()
                 os.makedirs(os.path.join(tmpk, "files"), exist_ok=True)
-                for fn in os.listdir(d):
+                for fn in outputs:
                     fp = os.path.join(d, fn)
-                    if fn in ("states",) or fn.endswith(".tla") or fn.endswith(".cfg"):
-                        continue
                     if os.path.isdir(fp):
-                        if fn not in before or os.listdir(fp):
-                            shutil.copytree(fp, os.path.join(tmpk, "files", fn), dirs_exist_ok=True)
-                    elif fn not in before or os.path.getmtime(fp) != before[fn]:
+                        shutil.copytree(fp, os.path.join(tmpk, "files", fn), dirs_exist_ok=True)
+                    elif os.path.isfile(fp):
                         shutil.copyfile(fp, os.path.join(tmpk, "files", fn))
                 open(os.path.join(tmpk, "stdout.txt"), "w").write(p.stdout + p.stderr)
                 open(os.path.join(tmpk, "rc.txt"), "w").write(str(p.returncode))
